@@ -324,3 +324,7 @@ def dict_comp_keys(xs: List[str], flag: bool) -> Dict[str, bool]:
 
 def dict_display_merge(d: Dict[str, int], k: str) -> Dict[str, int]:
     return {**d, k: 7, **{"z": 1}}
+
+
+def int_bool_eq(a: int, b: bool) -> bool:
+    return a == b
